@@ -522,6 +522,11 @@ class Fn:
                     return ("const", op[1], v["float"])
                 if "fn" in v:
                     return ("const", "fn", v["fn"])
+                if "tyc" in v:
+                    t = v["tyc"]   # type-system constant, printed form (string patterns keep their quotes)
+                    if len(t) >= 2 and t[0] == '"' and t[-1] == '"':
+                        t = t[1:-1].encode().decode("unicode_escape") if "\\" in t else t[1:-1]
+                    return ("const", op[1], t)
                 if "uneval" in v:
                     lits = v.get("lits") or []
                     if len(lits) == 1 and not isinstance(lits[0], dict):
